@@ -1107,6 +1107,9 @@ func (ex *Exec) formatValue(a IfaceV, verb byte) *Term {
 			return mkIte(v, mkStr("true"), mkStr("false"))
 		}
 	case FloatV:
+		if v.it != nil {
+			return mkFromInt(v.it)
+		}
 		return mkStr(strconv.FormatFloat(v.f, 'g', -1, 64))
 	case PtrV:
 		if v.c == nil {
@@ -1205,7 +1208,7 @@ func (ex *Exec) sprintf(format *Term, args []Value) *Term {
 					continue
 				}
 			}
-			if fv, ok := a.v.(FloatV); ok {
+			if fv, ok := a.v.(FloatV); ok && fv.it == nil {
 				r = mkConcat(r, mkStr(fmt.Sprintf("%"+flags+string(verb), fv.f)))
 				continue
 			}
@@ -1234,7 +1237,10 @@ func (ex *Exec) deepEq(a, b Value, depth int) *Term {
 		return mkEq(x, y)
 	case FloatV:
 		y, ok := b.(FloatV)
-		return mkBool(ok && x.f == y.f)
+		if !ok {
+			return tFalse
+		}
+		return floatEq(x, y)
 	case IfaceV:
 		y, ok := b.(IfaceV)
 		if !ok {
